@@ -44,3 +44,5 @@ mod c28;
 mod c30;
 #[cfg(kani)]
 mod c16;
+#[cfg(kani)]
+mod c26;
